@@ -113,13 +113,19 @@ def run(ctx, rep):
             long_ = [h for h in hists if len(h) > 2]
             ctx.rng.shuffle(long_)
             hists = short + long_[:ctx.n(1200, 0)]
+        else:
+            # all histories up to length 3 plus 15 000 of the length-4 ones
+            short = [h for h in hists if len(h) <= 3]
+            long_ = [h for h in hists if len(h) > 3]
+            ctx.rng.shuffle(long_)
+            hists = short + long_[:15000]
         directed += [[('register',)], [('load',), ('register',)], [('load',), ('register',), ('load',)],
                      [('write', (None, None), 0), ('load',), ('register',), ('touch', (None, None))],
                      [('write', (0, 'a.yaml'), 2), ('load',), ('register',), ('delete', (0, 'a.yaml')), ('load',)]]
         hists = directed + hists
         rnd = []
         big = ops_alphabet(4, len(CONTENTS)) + [('force',), ('register',)]
-        for _ in range(ctx.n(120, 4000)):
+        for _ in range(ctx.n(120, 1500)):
             rnd.append([ctx.rng.choice(big) for _ in range(ctx.rng.randint(4, 40))])
         rep.rules.append('operation histories over {write x3 contents, touch, delete} x {main file, policy.d/a.yaml, policy.d/z.yaml, '
                          'extra.d/b.yaml} + load: %d of the %d histories of length<=%d (all of length<=2, 64 directed ones with several '
